@@ -77,7 +77,7 @@ type fieldWrite struct {
 func (p *Prog) fieldWrites(fv *types.Var) []fieldWrite {
 	var out []fieldWrite
 	for _, fn := range p.Funcs {
-		for _, in := range p.Info(fn).Instrs {
+		for _, in := range p.Own(fn) {
 			if st, ok := in.(*ssa.Store); ok {
 				if f, base := addrField(st.Addr); f == fv {
 					out = append(out, fieldWrite{fn, in, "store", base, st.Val})
@@ -104,7 +104,7 @@ func (p *Prog) fieldWrites(fv *types.Var) []fieldWrite {
 func (p *Prog) structStores(named *types.Named) []fieldWrite {
 	var out []fieldWrite
 	for _, fn := range p.Funcs {
-		for _, in := range p.Info(fn).Instrs {
+		for _, in := range p.Own(fn) {
 			st, ok := in.(*ssa.Store)
 			if !ok {
 				continue
